@@ -151,7 +151,11 @@ Proof. vm_compute. auto. Qed.
 
 (* ---- what the engine keeps between runs (types by name, the importer's table, imported packages): every store of an answer
    is reached only when the error that came with the answer is nil (or nothing can have failed) *)
-Definition cache_class_ok (c : string) : bool := existsb (String.eqb c) ["checked"; "total"; "param"; "table-copy"].
+(* `absent`: the literal nil stored as a marker in a table whose reader (same function) serves an entry only when it is not nil --
+   never an answer (AnswerCache.NegativeMemo); the only such table is the per-run importer's *)
+Definition cache_class_ok (c : string) : bool := existsb (String.eqb c) ["checked"; "total"; "param"; "table-copy"; "absent"].
+Definition absent_sites_ok : bool :=
+  forallb (fun s => negb (String.eqb (snd s) "absent") || String.eqb (fst s) "engineState.FindType:importer.depTypes") gen_cache_stores.
 Definition cache_store_policy : store_policy :=
   if forallb (fun s => cache_class_ok (snd s)) gen_cache_stores then StoreChecked else StoreAlways.
 (* the stores of answers that come with an error: they are there, and they are classified `checked` *)
@@ -159,10 +163,12 @@ Definition fallible_cache_sites : list string :=
   ["engineState.FindType:state.typeByFQN"; "engineState.FindType:importer.depTypes"; "goImporter.Import:imp.state.AddCachedPackage()"].
 Definition cache_site_checked (site : string) : bool :=
   let cs := map snd (filter (fun s => String.eqb (fst s) site) gen_cache_stores) in
-  negb (Nat.eqb (List.length cs) 0) && forallb (String.eqb "checked") cs.
+  existsb (String.eqb "checked") cs && forallb (fun c => String.eqb "checked" c || String.eqb "absent" c) cs.
 Lemma cache_stores_checked :
   cache_store_policy = StoreChecked /\ forallb cache_site_checked fallible_cache_sites = true.
 Proof. vm_compute. split; reflexivity. Qed.
+Lemma cache_markers_confined : absent_sites_ok = true.
+Proof. vm_compute. reflexivity. Qed.
 
 Lemma answers_history_independent :
   forall (key val err : Type) (key_eqb : key -> key -> bool), (forall a b, reflect (a = b) (key_eqb a b)) ->
